@@ -1,10 +1,11 @@
 """C20 - shared curve objects and the reader-writer lock are safe under every schedule (the harness owns the schedule)."""
 import copy
 import hashlib
+import itertools
 
 from hypothesis import strategies as st
 
-from vlib import core, env, ossl, sched
+from vlib import env, ossl, sched
 from vlib.core import Part, Violation
 
 PROPERTY = "C20"
@@ -12,21 +13,25 @@ LEVEL = "exploration"
 DESIGN_REF = "DESIGN.md section 4, C20"
 RULE = (
     "(A) shared curve objects: operation A (k*G / mul_add / verification / key generation on a FRESH PointJacobi(generator=True) with empty table; "
-    "scale / to_affine / x / y / k*P / G.mul_add(..P..) / vk.verify / to_bytes / == / + on a public-key point built with z != 1; verification with a "
-    "lazily precomputed key) is stopped at its i-th trace event (line events via sys.settrace; thorough also INSTRUCTION events via sys.monitoring) inside "
-    "the PointJacobi/AbstractPoint frames whose self/other is the shared object; there a COMPLETE operation B on the same object runs inline in the trace "
-    "callback (equivalent under the GIL to a switch to a second thread that runs B to completion), then A resumes. EVERY i of every listed (curve, A, B) "
-    "pair is enumerated (parts sweep_*); Hypothesis samples schedules with 1..3 preemptions, random scalars, keys, z and curves (part sampled). Oracle: "
-    "(result A, results B.., final observable state = affine x/y, table contents, to_bytes, two probe multiplications) must equal the outcome of one of the "
-    "sequential orders of the same operations on fresh objects; the sequential values are cross-checked once per combination against OpenSSL (EC_POINT_mul, "
-    "ECDSA_do_verify). Non-trivial = B really ran inside A and A or B changes the stored representation (table / coordinates) of the shared object; distinct by case hash. "
-    "(B) lock: the real _rwlock.py source is exec'd with `threading` replaced by model locks; every Lock.acquire/release and every read/write of plain shared "
-    "data (light-switch counters) is a scheduling point; ALL interleavings of the listed thread sets (readers/writers doing acquire - critical section - release) "
-    "are explored depth-first with re-execution and visited-state pruning (state = per-thread control state (function, bytecode offset, plain locals of every lock-code frame) "
-    "+ pending operation, lock flags, counters, holder set). Invariants in every reachable state: a writer holder excludes every other holder; no state with an "
-    "unfinished thread has an empty enabled set; no thread raises; bounded length; when all are done the lock still admits a late writer and reader; two simultaneous "
-    "reader holders are reachable and a second reader run alone enters while a reader holds and no writer has started. One evaluation = one execution (distinct "
-    "schedule prefix run until pruned or finished); non-trivial = an execution in which some thread was blocked on a lock held by another (distinct by construction)."
+    "scale / to_affine / x,y / k*P / G.mul_add(..P..) / vk.verify / to_bytes / == / + on a public-key point built with z != 1; verification and k*P with a "
+    "lazily precomputed key) is stopped at its i-th trace event inside the PointJacobi/AbstractPoint frames whose self/other is the shared object (line events via "
+    "sys.settrace; INSTRUCTION events via sys.monitoring: quick for the short operations and the table build on SECP112r1, thorough for all listed pairs incl. the "
+    "pure arithmetic helper frames); there a COMPLETE operation B on the same object runs inline in the trace callback (equivalent under the GIL to a switch to a "
+    "second thread that runs B to completion), then A resumes. EVERY i of every listed (curve, A, B) pair is enumerated (parts sweep_*: SECP112r1 + BRAINPOOLP160r1, "
+    "thorough also NIST256p, NIST384p); Hypothesis samples schedules with 1..3 preemptions, random scalars, keys, z and curves (part sampled). Oracle: (result of A, "
+    "results of B.., final observable state = affine x/y, compressed encoding, table contents, two probe multiplications) must equal the outcome of one of the "
+    "sequential orders of the same operations on fresh objects (points compared as group elements, exceptions as results); the sequential values are cross-checked "
+    "once per combination against OpenSSL (EC_POINT_mul/add, ECDSA_do_verify, point2oct). Non-trivial = B really ran inside A and A or B changes the stored "
+    "representation (table / coordinates) of the shared object; distinct by case hash. "
+    "(B) lock: the real _rwlock.py source (located through the imported module's __file__) is exec'd with `threading` replaced by model locks; every Lock.acquire/"
+    "release and every read/write of plain shared data (light-switch counters) is a scheduling point; ALL interleavings of the listed thread sets (1R+1W, 2R+1W, "
+    "1R+2W, 2R, thorough also 2R+2W, 3R+1W, 3R and two rounds per thread for 2R+1W / 1R+2W; each thread: acquire - critical section - release) are explored "
+    "depth-first with re-execution and visited-state pruning (state = per-thread control state (function, bytecode offset, plain locals of every lock-code frame) + "
+    "pending operation, lock flags, counters, holder set). Invariants in every reachable state: a writer holder excludes every other holder; no state with an "
+    "unfinished thread has an empty enabled set (deadlock); no thread raises; bounded length; when all are done a late writer and reader still get through; two "
+    "simultaneous reader holders are reachable and a second reader run alone enters while a reader holds and every other thread is idle. Larger thread sets (4-6 "
+    "threads, 1-3 rounds) get Hypothesis-chosen schedules (part lock_sampled). One evaluation = one execution (a distinct schedule prefix run until pruned or "
+    "finished); non-trivial = an execution in which some thread was blocked on a lock held by another (distinct by construction; lock_sampled: distinct by schedule)."
 )
 ASSUMPTIONS = [
     "CPython with the GIL: a bytecode is the unit of atomicity and a thread switch happens between two bytecodes; free-threaded builds are out of scope",
@@ -40,7 +45,7 @@ ASSUMPTIONS = [
 REQUIRED_CLASSES = [
     "preempt.in=_maybe_precompute", "preempt.in=scale", "preempt.in=__mul__", "preempt.in=mul_add", "preempt.in=to_affine",
     "preempt.state=before_publish", "preempt.state=after_publish", "A.mutates=table", "A.mutates=coords", "baseline.ossl_agree",
-    "scen=gen", "scen=pub", "scen=vkpre", "sampled.preemptions=2",
+    "scen=gen", "scen=pub", "scen=vkpre", "sampled.preemptions=2", "mode=line", "mode=instr",
     "lock.two_readers_states", "lock.writer_alone_states", "lock.blocked_states", "lock.probe_second_reader_enters",
 ]
 
@@ -295,8 +300,6 @@ _COUNT = {}
 
 
 def _perms(n):
-    import itertools
-
     return list(itertools.permutations(range(n)))
 
 
